@@ -421,3 +421,11 @@ from contracts import graph_utils as _gu
 CONTRACTS.append(_gu.collect_residues('C19'))
 CONTRACTS.append(_gu.partition_graph('C19'))
 CONTRACTS.append(_gu.items_with_common_values('C19'))
+
+# the atoms of an edited residue that the new block does not account for are removed (the marking step of repair_graph, contract
+# of C04): re-verified here because "surplus atoms of the old residue are removed" is part of this property
+import copy as _copy
+from contracts import c04 as _c04
+_m = _copy.copy(_c04.mark_extra)
+_m.prop = 'C19'
+CONTRACTS.append(_m)
